@@ -69,7 +69,7 @@ impl M {
             p_i64: prim_shapes!(i64),
             p_i128: prim_shapes!(i128),
             max_digits,
-            max_scale: 60,
+            max_scale: 600,
             pruned: Arc::new(AtomicU64::new(0)),
         }
     }
@@ -359,6 +359,11 @@ fn bfs(run: &Run, m: &M, name: &str, actions: &[Act], depth: usize) -> Vec<(usiz
 
 fn pool(tier: Tier) -> Vec<Dec> {
     let mut p = vec![Dec::new(0, 0), Dec::new(0, 3), Dec::new(0, -3), Dec::new(1, 0), Dec::new(100, 2), Dec::new(-1, 0), Dec::new(2, 0), Dec::new(10, 0), Dec::new(1, 1), Dec::new(1, -3), Dec::new(125, 1), Dec::new(-725, 2)];
+    // operands whose scale gaps against the rest of the pool sit on the re-scaling decision constants
+    // (19/20/21 for the u64 power of ten, 256+ for a narrowed gap)
+    p.push(Dec::new(3, 21));
+    p.push(Dec::new(7, 259));
+    p.push(Dec::new(0, 262));
     if tier.is_thorough() {
         p.push(Dec { n: pow10(19) + 1, s: 0 });
         p.push(Dec::new(5, 1));
@@ -401,13 +406,13 @@ fn main() {
     let full = m.all_actions();
     let core = m.core_actions();
     let depth_full: usize = std::env::var("VERIF_C19_DEPTH_FULL").ok().and_then(|s| s.parse().ok()).unwrap_or(tier.pick(3, 4));
-    let depth_core: usize = std::env::var("VERIF_C19_DEPTH_CORE").ok().and_then(|s| s.parse().ok()).unwrap_or(tier.pick(5, 6));
+    let depth_core: usize = std::env::var("VERIF_C19_DEPTH_CORE").ok().and_then(|s| s.parse().ok()).unwrap_or(tier.pick(4, 5));
     run.bound("program_depth_full_alphabet", depth_full);
     run.bound("program_depth_core_alphabet", depth_core);
     run.bound("pool", json!(m.pool.iter().map(|p| p.0.show()).collect::<Vec<_>>()));
     run.bound("actions_full_alphabet", full.len());
     run.bound("actions_core_alphabet", core.len());
-    run.bound("prune", "results with more than 40 digits or |scale| > 60 are not expanded (counted)");
+    run.bound("prune", "results with more than 40 digits or |scale| > 600 are not expanded (counted)");
     run.rule("explicit-state BFS over accumulator representations (int_val, scale): initial states = the operand pool; FULL alphabet = every decimal overload (30) x pool, every BigInt overload (36) x 6 integers, 32 primitive overloads x {u8,i64,i128} x 5 values, 12 unary/clone/re-scale operations, 3 sum forms x pool; CORE alphabet = one spelling per distinct implementation path; every transition runs the real overload on the accumulator rebuilt from the state pair and checks value, comparisons and hashes against the exact value; states merged exactly on the pair; non-trivial = distinct reachable representations beyond the initial ones");
     run.assume("same representation => same futures (the pair is the complete state of a BigDecimal), so merging is sound and each state is expanded at its minimal depth, i.e. with the largest remaining budget");
 
